@@ -178,7 +178,7 @@ def run_case(sub, prop, spec, known, ignore, res, collect=True):
     except Violation as v:
         _handle(sub, prop, spec, v, known, ignore, res)
         return
-    except (AssertionError, ArithmeticError, LookupError, TypeError, ValueError, AttributeError, RuntimeError,
+    except (AssertionError, ArithmeticError, LookupError, TypeError, ValueError, AttributeError, RuntimeError, NameError,
             NotImplementedError, OSError, RecursionError) as e:
         if type(e).__module__.startswith('hypothesis'):
             raise
